@@ -448,8 +448,10 @@ class ScaledInteger(HasUnit, DataType):
                 raise WrongTypeError(f'can not convert {shortrepr(value)} to float') from None
         try:
             intval = int(round(value / self.scale))
-        except (ValueError, OverflowError):  # nan or inf
+        except ValueError:  # nan
             raise WrongTypeError(f'can not convert {shortrepr(value)} to a scaled integer') from None
+        except OverflowError:  # inf
+            raise RangeError(f'{shortrepr(value)} is out of range') from None
         return float(intval * self.scale)   # return 'actual' value (which is more discrete than a float)
 
     def validate(self, value, previous=None):
